@@ -596,6 +596,13 @@ pub fn context_programs() -> Vec<(&'static str, String, String, bool)> {
     add("literal:slashes-in-string", ".macro put\n.db \"a//b\", @0, '/', \"/*\", @1\n.endm\nput 1, 2\n", ".db \"a//b\", 1, '/', \"/*\", 2\n", false);
     add("literal:quote-characters", ".macro put\n.db '\"', @0, \"it's\", @1\n.endm\nput 1, 2\n", ".db '\"', 1, \"it's\", 2\n", false);
     add("comment:mentions-parameters", ".macro put\n.db @0 ; first of @0 and @1, never @7\n.db @1 // @5\n.db @0 /* @9 */\n.endm\nput 1, 2\n", ".db 1\n.db 2\n.db 1\n", false);
+    // a macro without parameters called several times: every call is expanded where it stands
+    add("argument-less:called-from-different-segments", ".macro tab\n.db 1, 2\n.endm\ntab\n.eseg\ntab\n.cseg\ntab\n.eseg\ntab\n", ".db 1, 2\n.eseg\n.db 1, 2\n.cseg\n.db 1, 2\n.eseg\n.db 1, 2\n", false);
+    add("argument-less:called-from-different-segments", ".macro res\n.byte 3\n.endm\n.dseg\na: res\n.eseg\nb: res\nc: .db 1\n.dseg\nd: .byte 1\n.cseg\n.dw a, b, c, d\n", ".dseg\na: .byte 3\n.eseg\nb: .byte 3\nc: .db 1\n.dseg\nd: .byte 1\n.cseg\n.dw a, b, c, d\n", false);
+    add("argument-less:body-changes-what-it-tests", ".macro once\n.ifndef once_done\n.define once_done\n.dw 0x1111\n.else\n.dw 0x2222\n.endif\n.endm\nonce\nonce\nonce\n", ".dw 0x1111\n.dw 0x2222\n.dw 0x2222\n", false);
+    add("argument-less:org-in-body-from-different-segments", ".macro at8\n.org 8\n.endm\nnop\nat8\nx: nop\n.eseg\nat8\ny: .db 1\n.cseg\n.dw x, y\n", "nop\n.org 8\nx: nop\n.eseg\n.org 8\ny: .db 1\n.cseg\n.dw x, y\n", false);
+    add("argument-less:uses-a-set-variable", ".set cnt = 0\n.macro next\n.set cnt = cnt + 1\n.dw cnt\n.endm\nnext\nnext\nnext\n", ".set cnt = 0\n.set cnt = cnt + 1\n.dw cnt\n.set cnt = cnt + 1\n.dw cnt\n.set cnt = cnt + 1\n.dw cnt\n", false);
+    add("argument-less:pc-in-body", ".macro here\n.dw pc\nrjmp pc\n.endm\nhere\nnop\nhere\n.org 0x20\nhere\n", ".dw pc\nrjmp pc\nnop\n.dw pc\nrjmp pc\n.org 0x20\n.dw pc\nrjmp pc\n", false);
     // when a conditional of the body is decided: at the call, like every other line of the body
     add("timing:define-after-first-call", ".macro m\n.ifdef F\nnop\n.else\nret\n.endif\n.endm\nm\n.define F\nm\n", ".ifdef F\nnop\n.else\nret\n.endif\n.define F\n.ifdef F\nnop\n.else\nret\n.endif\n", false);
     add("timing:define-after-first-call", ".macro m\n.ifndef F\n.dw 1\n.endif\n.dw 2\n.endm\nm\n.define F\nm\n", ".ifndef F\n.dw 1\n.endif\n.dw 2\n.define F\n.ifndef F\n.dw 1\n.endif\n.dw 2\n", false);
